@@ -45,6 +45,9 @@ func MapSiteStats(site int) (visits, visits2, nonIdent uint32) {
 	return mapVisits[site], mapVisits2[site], mapNonIdent[site]
 }
 
+// DebugMap, if set, sees every simulated map range (debugging aid).
+var DebugMap func(site, n int, typ string)
+
 // Pair is one entry of a map range under simulation: the key, and the live map
 // the value is read from when the iteration reaches it (so that entries deleted
 // during the loop are skipped and updated values are seen, as the Go
@@ -66,6 +69,9 @@ func Pairs[K comparable, V any](m map[K]V, site int) []Pair[K, V] {
 	out := make([]Pair[K, V], 0, n)
 	for k := range m {
 		out = append(out, Pair[K, V]{m, k})
+	}
+	if DebugMap != nil {
+		DebugMap(site, n, fmt.Sprintf("%T", m))
 	}
 	if !Active || mapPolicy == MapNative || n < 2 {
 		if Active {
